@@ -97,4 +97,32 @@ CLAIMED["C04"] = {
   "note": "Trusted: Coq kernel; the python generator/printer and its offset computation. Rule semantics beyond the numeric ones (C10) are not modelled in Coq; that part is differential testing.",
   "technique": "Coq proof of self-validity on the rule-free validator model + generated satisfied/corrupted rule schemas through Check/Validate with position oracle (partial)",
 }
+CLAIMED["C05"] = {
+  "text": "Full proof, all byte strings of any length and nesting depth: C05_check_iff_JsonText - the model of Document.Check (35-state pushdown scanner with its queue of found events, "
+          "stack pairing, end-of-input rule and empty-document rule) accepts bs iff bs is blanks ++ render v ++ blanks for a value tree v whose leaves are RFC 8259 number/string/true/false/null "
+          "tokens with arbitrary blanks at the structural gaps (generative grammar); obtained as C05_check_strict_iff (scanner = recursive-descent reference recogniser, by one simulation "
+          "equation with the stack generalised) composed with rfc8259_iff_JsonText (recogniser = grammar, both directions). C05_check_trailing_iff: with AllowTrailingNonSpaceCharacters Check "
+          "succeeds iff the text begins with one complete value, numbers taken maximally. C05_scan_no_panic / C05_check_no_panic (no internal panic, stack never mismatched), "
+          "C05_check_error_position (every error position lies inside the input). All axiom-free. Tie: every string over a 16-symbol class alphabet up to length 4 (quick) / 6 (thorough), "
+          "letters of the literals up to 4/5, generated valid texts, all their truncations, token mutations, each strict and with trailing allowed, library vs extracted model vs an "
+          "independent python recogniser; plus history probes (Check after NextLexeme/Len/Check equals a fresh Check).",
+  "note": "Trusted: Coq kernel; extraction; hex wire; lib/jsonref.py as second oracle. The truncated-number defect (1. 1e 1e+) was found by this check and fixed in 7128bde; the model follows the fixed code.",
+  "technique": "Coq proof: pushdown scanner model = recursive-descent recogniser = generative RFC 8259 grammar (simulation by equation + LL(1) soundness/completeness) + exhaustive small-string correspondence",
+}
+CLAIMED["C15"] = {
+  "text": "PARTIAL. Proved: C04_self_valid_all (the rule-free validator model accepts the schema's own example, both configurations). The example builder itself is not modelled; the property is "
+          "decided by generated cases through the API: plain-JSON schemas with rules (Example = example without annotations/blanks, byte for byte), type graphs with references, or-shortcuts, "
+          "alias types, additionalProperties types, key shortcuts (incl. escaped examples), enum rules, allOf, keys with quotes/backslashes/control characters: Example() must be well-formed "
+          "JSON (independent recogniser) and Validate(Example()) must succeed; Example() repeated after Example() on another schema must be identical.",
+  "note": "Trusted: python generators and lib/jsonref.py. Two defects were fixed (dangling comma a896412, unescaped keys 7c6cdda); known finding C15-recursion-cutoff (required property dropped at the "
+          "recursion limit / first or-alternative loops) is silenced only for recursive graphs rejected with 204/205.",
+  "technique": "generated schemas/type graphs through Check/Example/Validate with intrinsic oracle (well-formed + self-accepted + plain-equality); Coq self-validity theorem on the rule-free model (partial)",
+}
+CLAIMED["C16"] = {
+  "text": "PARTIAL (no Coq model of the AST builder; a computed oracle is not a theorem). GetAST is compared with the AST computed from the generator's abstract schema for generated schemas "
+          "to depth 4 with rules in random written order, literals with trailing zeros, enum lists of mixed kinds, declared and inferred types, formats, notes; fixed cases cover type/or "
+          "shortcuts (reference nodes, generated markers), key shortcuts, or rule-sets with nested objects and allOf (inherited properties absent). Any difference is reported with its JSON path.",
+  "note": "Trusted: lib/jsight.py expected_ast and the harness' JSON rendering of ASTNode/RuleASTNode. This is differential testing against a specification-derived oracle, labelled partial.",
+  "technique": "differential check of GetAST against an oracle computed from the abstract schema (partial: no theorem)",
+}
 NOT_APPLICABLE = {}
